@@ -163,7 +163,11 @@ func checkC04(c *Check) {
 	c.Rule("R7", "E5 effects", "resolving a value never changes a scope: Value, Invoke and Apply (and what they call inside the injector) store nothing into the injector — a hit in an outer scope or an implementor found by scanning is not recorded as a registration of the inner scope", 4)
 	for _, fn := range p.Funcs() {
 		r := fn.Signature.Recv()
-		if r == nil || namedName(derefT(r.Type())) != "injector" || fn.Pkg != p.SSA["inject"] {
+		onInjector := r != nil && namedName(derefT(r.Type())) == "injector"
+		if r == nil && fn.Parent() == nil && len(fn.Params) > 0 && namedName(derefT(fn.Params[0].Type())) == "injector" {
+			onInjector = true // a helper taking the injector as its first parameter
+		}
+		if !onInjector || fn.Pkg != p.SSA["inject"] {
 			continue
 		}
 		switch fn.Name() {
@@ -665,13 +669,16 @@ func checkFastInvoker(c *Check, fn *ssa.Function) {
 			}
 			return
 		}
-		sl, ok := strip(r.Results[0]).(*ssa.Slice)
-		if !ok {
-			okRes = false
-			return
+		// the result list: a slice literal, or make([]reflect.Value, n) filled by index
+		var al ssa.Value
+		if sl, ok := strip(r.Results[0]).(*ssa.Slice); ok {
+			if a, ok := sl.X.(*ssa.Alloc); ok {
+				al = a
+			}
+		} else if ms, ok := strip(r.Results[0]).(*ssa.MakeSlice); ok && vConstInt(int64(nres))(ms.Len) {
+			al = ms
 		}
-		al, ok := sl.X.(*ssa.Alloc)
-		if !ok {
+		if al == nil {
 			okRes = false
 			return
 		}
@@ -683,7 +690,11 @@ func checkFastInvoker(c *Check, fn *ssa.Function) {
 			}
 		}
 		got := map[int64]bool{}
-		for _, rf := range referrers(al) {
+		refs := referrers(al)
+		if sl, ok := strip(r.Results[0]).(*ssa.Slice); ok {
+			refs = append(append([]ssa.Instruction{}, refs...), referrers(sl)...) // make([]T, n) with constant n: stores go through the slice
+		}
+		for _, rf := range refs {
 			if ia, ok := rf.(*ssa.IndexAddr); ok {
 				k, _ := constInt(ia.Index)
 				for _, rr := range referrers(ia) {
